@@ -125,6 +125,13 @@ def canon(n, swap, fname, symmetric):
         return ["cond"] + [canon(n[x], swap, fname, symmetric) for x in ("c", "a", "b")]
     if k == "block":
         items = canon(n.get("s", []), swap, fname, symmetric)
+        # `if (X != Y) return false;` at statement level: X and Y are interchangeable in the rest of the block
+        for i, it in enumerate(items):
+            if isinstance(it, list) and len(it) == 4 and it[0] == "if" and isinstance(it[1], list) and \
+                    it[1][:2] == ["bin", "!="] and it[3] is None and json.dumps(it[2]).count('"return"') == 1 and \
+                    '["bool", false]' in json.dumps(it[2]):
+                x, y = it[1][2], it[1][3]
+                items = items[:i + 1] + [replace_subtree(u, y, x) for u in items[i + 1:]]
         # consecutive independent declarations may come in either order
         out, run_ = [], []
         for it in items:
@@ -143,6 +150,8 @@ def canon(n, swap, fname, symmetric):
         t = canon(n["then"], swap, fname, symmetric)
         if isinstance(c, list) and c[:2] == ["bin", "=="] and c[2][0] == "ref" and c[3][0] == "ref":
             t = _unify(t, c[2][1], c[3][1])      # inside the branch the two names denote the same value
+        elif isinstance(c, list) and c[:2] == ["bin", "=="] and c[2] != c[3]:
+            t = replace_subtree(t, c[3], c[2])   # ... or the two (side-effect free) expressions do
         return ["if", c, t, canon(n.get("else"), swap, fname, symmetric)]
     if k == "decl":
         return ["decl", [[v["name"] if v["name"] not in swap else swap[v["name"]],
@@ -160,6 +169,75 @@ def _unify(t, x, y):
         if len(t) == 2 and t[0] == "ref" and t[1] == y:
             return ["ref", x]
         return [_unify(u, x, y) for u in t]
+    return t
+
+
+def inline_param_locals(fn):
+    """Copy of fn in which every local that is initialised from a side-effect-free expression over the parameters and
+    never reassigned (`const size_t fields = a.get_record_size();`, `type_t asize = a.get_array_size();`, structured
+    bindings of `t1.get_range()`) is replaced by its initialiser.  Mirror comparison then sees expressions over the two
+    parameters only."""
+    import copy
+    body = copy.deepcopy(fn["body"])
+    params = {p["name"] for p in fn["params"]}
+    assigned = set()
+    for n in walk(body):
+        if n.get("k") == "bin" and n.get("op", "").endswith("=") and n["op"] not in ("==", "!=", "<=", ">=") and \
+                n["lhs"].get("k") == "ref":
+            assigned.add(n["lhs"].get("id"))
+        if n.get("k") == "un" and n.get("op") in ("++", "--") and n["e"].get("k") == "ref":
+            assigned.add(n["e"].get("id"))
+    env = {}            # id -> replacement node ; ("b", name) -> replacement for binding names
+    drop = set()
+    for d in walk(body):
+        if d.get("k") != "decl":
+            continue
+        for v in d.get("vars", []):
+            init = v.get("init")
+            if init is None or v.get("id") in assigned:
+                continue
+            refs = {x.get("name") for x in walk(init) if x.get("k") == "ref" and x.get("dk") in ("param", "local", "binding")}
+            if not refs or not refs <= params | {k[1] for k in env if isinstance(k, tuple)}:
+                # may refer to earlier inlined locals: those were substituted already below (single pass in order)
+                pass
+            pure = not any(x.get("k") == "bin" and x.get("op") == "=" for x in walk(init)) and \
+                all(x.get("ck") != "indirect" for x in walk(init) if x.get("k") == "call")
+            if not pure or any(x.get("k") == "lambda" for x in walk(init)):
+                continue
+            if v.get("bindings"):
+                for i, b in enumerate(v["bindings"]):
+                    env[("b", b["name"])] = {"k": "bindpart", "i": i, "e": init}
+                drop.add(id(v))
+            else:
+                env[v.get("id")] = init
+                drop.add(id(v))
+
+    def sub(n):
+        if isinstance(n, list):
+            return [sub(x) for x in n]
+        if not isinstance(n, dict):
+            return n
+        if n.get("k") == "ref":
+            if n.get("dk") == "binding" and ("b", n.get("name")) in env:
+                return sub(env[("b", n["name"])])
+            if n.get("dk") == "local" and n.get("id") in env:
+                return sub(env[n["id"]])
+        if n.get("k") == "decl":
+            vs = [v for v in n.get("vars", []) if id(v) not in drop]
+            if not vs:
+                return {"k": "null"}
+            return dict(n, vars=[dict(v, init=sub(v.get("init"))) if v.get("init") is not None else v for v in vs])
+        return {k: sub(v) if isinstance(v, (dict, list)) else v for k, v in n.items()}
+    out = dict(fn)
+    out["body"] = sub(body)
+    return out
+
+
+def replace_subtree(t, old, new):
+    if t == old:
+        return new
+    if isinstance(t, list):
+        return [replace_subtree(x, old, new) for x in t]
     return t
 
 
@@ -235,8 +313,9 @@ def mirror(chk, F):
                 continue
             a, b = h["params"][0]["name"], h["params"][1]["name"]
             sw = {a: b, b: a}
-            sw.update(local_pairs(h, a, b))
-            cl = clauses(h["body"])
+            hi = inline_param_locals(h)
+            sw.update(local_pairs(hi, a, b))
+            cl = [(c_, st_) for c_, st_ in clauses(hi["body"]) if not (st_.get("k") == "null" and c_ is None)]
             o = {json.dumps([canon(c, {}, hq, symmetric), canon(st, {}, hq, symmetric)]) for c, st in cl}
             w = {json.dumps([canon(c, sw, hq, symmetric), canon(st, sw, hq, symmetric)]) for c, st in cl}
             if o == w:
@@ -244,13 +323,28 @@ def mirror(chk, F):
                 symmetric.add(hq.split("::")[-1])
                 changed = True
     for q, npar in MIRROR_FUNCS:
-        fn = F.fn(q, npar)
+        fn0 = F.fn(q, npar)
+        fn = inline_param_locals(fn0)
         p1, p2 = fn["params"][0]["name"], fn["params"][1]["name"]
         swap = {p1: p2, p2: p1}
         swap.update(local_pairs(fn, p1, p2))
-        cl = clauses(fn["body"])
-        orig = [json.dumps([canon(c, {}, q, symmetric), canon(s, {}, q, symmetric)]) for c, s in cl]
-        swapped = [json.dumps([canon(c, swap, q, symmetric), canon(s, swap, q, symmetric)]) for c, s in cl]
+        cl = [(c_, s_) for c_, s_ in clauses(fn["body"]) if not (s_.get("k") == "null" and c_ is None)]
+        # `if (X != Y) return false;` makes X and Y interchangeable in every later clause
+        eqs = []
+        orig, swapped = [], []
+        for c, s_ in cl:
+            o = [canon(c, {}, q, symmetric), canon(s_, {}, q, symmetric)]
+            w = [canon(c, swap, q, symmetric), canon(s_, swap, q, symmetric)]
+            for x, y in eqs:
+                o, w = replace_subtree(o, y, x), replace_subtree(w, y, x)
+            orig.append(json.dumps(o))
+            swapped.append(json.dumps(w))
+            cc = canon(c, {}, q, symmetric) if c is not None else None
+            rets = [x for x in walk(s_) if x.get("k") == "return"]
+            if isinstance(cc, list) and cc[:2] == ["bin", "!="] and len(rets) == 1 and \
+                    (rets[0].get("e") or {}).get("v") is False:
+                # canonical operands are sorted: the pair is (x, y) with y := swapped image of x or vice versa
+                eqs.append((cc[2], cc[3]))
         so = set(orig)
         for (c, s), sw in zip(cl, swapped):
             key = "%s|%s" % (q.split("::")[-1], short(c)[:90] if c is not None else "<tail>")
@@ -304,16 +398,42 @@ def typekind(chk, F):
         raise AnalysisBroken("only %d constructible type kinds found" % len(constructible))
     n_sites = 0
     mirror_q = {q for q, _ in MIRROR_FUNCS}
-    for fn in F.functions.values():
-        if fn["q"] not in mirror_q:
-            continue        # armed only inside the relations that must be symmetric (a dead test elsewhere is harmless)
+    # the relations and the file-local helpers they call (an extracted `isIgnoredScalarPrefix(type)`)
+    scope, todo = [], [fn for fn in F.functions.values() if fn["q"] in mirror_q]
+    seen_q = set()
+    while todo:
+        fn = todo.pop()
+        if fn["q"] + str(fn.get("sig")) in seen_q:
+            continue
+        seen_q.add(fn["q"] + str(fn.get("sig")))
+        scope.append(fn)
+        for c in walk(fn.get("body")):
+            if c.get("k") == "call" and c.get("ck") in ("free", "static") and c.get("fn"):
+                for t in F.fns(c["fn"]):
+                    if t.get("body") is not None and t.get("file") == fn.get("file") and t.get("static"):
+                        todo.append(t)
+    for fn in scope:
+        # locals that hold the kind of a type: `const auto kind = type.get_kind();`
+        kind_locals = set()
+        for d in walk(fn.get("body")):
+            if d.get("k") == "decl":
+                for v in d.get("vars", []):
+                    if v.get("init") is not None and any(x.get("k") == "call" and x.get("fn") == "UTAP::type_t::get_kind"
+                                                         for x in walk(v["init"])):
+                        kind_locals.add(v.get("id"))
         for n in walk(fn.get("body")):
             en = None
             if n.get("k") == "bin" and n.get("op") in ("==", "!="):
                 for a, b in ((n["lhs"], n["rhs"]), (n["rhs"], n["lhs"])):
-                    if a.get("k") == "call" and a.get("fn") == "UTAP::type_t::get_kind" and b.get("k") == "ref" \
-                            and b.get("dk") == "enumerator":
+                    while a.get("k") == "cast":
+                        a = a["e"]
+                    is_kind = (a.get("k") == "call" and a.get("fn") == "UTAP::type_t::get_kind") or \
+                        (a.get("k") == "ref" and a.get("id") in kind_locals and a.get("id") is not None)
+                    if is_kind and b.get("k") == "ref" and b.get("dk") == "enumerator":
                         en = b["name"]
+            if n.get("k") == "case" and isinstance(n.get("v"), dict) and n["v"].get("dk") == "enumerator" and \
+                    (n["v"].get("enum") or "").endswith("kind_t"):
+                en = n["v"]["name"]          # `switch (t1.get_kind()) { case LABEL: ...`
             if n.get("k") == "call" and n.get("fn") == "UTAP::type_t::is" and n.get("args"):
                 a = n["args"][0]
                 if a.get("k") == "ref" and a.get("dk") == "enumerator":
